@@ -1,5 +1,6 @@
 mod api;
 mod db;
+mod fmtrun;
 mod lexrun;
 mod render;
 mod rqjson;
@@ -21,6 +22,7 @@ fn main() {
         "target" => target::main(&args[1..]),
         "rqjson" => rqjson::main(&args[1..]),
         "stages" => stages::main(&args[1..]),
+        "fmtrun" => fmtrun::main(&args[1..]),
         "lexlist" => lexrun::main_list(&args[1..]),
         "render-ndjson" => {
             // args: <dbset.json> <programs.ndjson> <out.ndjson of {"id","src"}>
@@ -34,6 +36,25 @@ fn main() {
                 }
                 let p: serde_json::Value = serde_json::from_str(l).expect("json");
                 writeln!(out, "{}", serde_json::json!({"id": p["id"], "src": render::program(&p, &dbset["schema"])})).unwrap();
+            }
+            0
+        }
+        "pljson" => {
+            // args: <sources.ndjson {"id","src"}> <out.ndjson {"id","pl"|null}>
+            use std::io::Write;
+            let mut out = std::io::BufWriter::new(std::fs::File::create(&args[2]).expect("out"));
+            for l in std::fs::read_to_string(&args[1]).expect("sources").lines() {
+                if l.trim().is_empty() {
+                    continue;
+                }
+                let v: serde_json::Value = serde_json::from_str(l).expect("json");
+                let src = v["src"].as_str().unwrap_or("");
+                let o = match api::guarded(|| prqlc::prql_to_pl(src)) {
+                    api::Outcome::Ok(pl) => serde_json::json!({"id": v["id"], "pl": serde_json::to_value(&pl).unwrap_or_default()}),
+                    api::Outcome::Err(e) => serde_json::json!({"id": v["id"], "pl": null, "err": e.inner.first().map(|m| m.reason.clone())}),
+                    api::Outcome::Panic { msg, file, line } => serde_json::json!({"id": v["id"], "pl": null, "panic": format!("{file}:{line}:{msg}")}),
+                };
+                writeln!(out, "{}", o).unwrap();
             }
             0
         }
